@@ -1,6 +1,7 @@
 import WebPkg.Driver.OpsBSig
 import WebPkg.Driver.OpsCbor
 import WebPkg.Model.Trace
+import WebPkg.Model.PathUrl
 namespace WebPkg.Driver
 open WebPkg.Trace
 
@@ -55,6 +56,7 @@ def handleFault (op : String) (args : List String) : Option String :=
     | some out =>
       let r := runChecked m [out] kk
       pure (if r.failed then "err good" else "ok good")
+  | "path.url", [b, r] => do pure s!"ok {toHex (PathUrl.pathToURL (← ofHex b) (← ofHex r))}"
   | "faultlen", kind :: rest => do
     match ← faultFreeOutput kind rest with
     | none => pure "inputerr"
